@@ -108,3 +108,11 @@ func VerifC17Writer() {
 		verifReach("waited-for-refill")
 	}
 }
+
+// VerifBucketParams exposes the token bucket a writer was built with (capacity = burst, tokens per
+// refill, refill interval) so that the direct-invoke harness can tie them to the configured
+// rate and burst.
+func VerifBucketParams(w *BandwidthLimitingWriter) (capacity, tokens, refill int64, interval time.Duration) {
+	b := w.th.b
+	return b.capacity, b.tokenCount, b.refillNumber, b.refillInterval
+}
